@@ -778,3 +778,79 @@ func TestWitnessTextSkipIgnoresLimit(t *testing.T) {
 	}
 	pbt.Witness(t, kfTextSkip, err == nil, "prototext.UnmarshalOptions{DiscardUnknown:true, RecursionLimit:5} accepts zz{zz{…}} nested 50 deep")
 }
+
+// ---------------------------------------------------------------------------------------------
+// totality at end of input: every prefix of every hostile token, in fixed frames (exhaustive)
+
+type prefixCase struct {
+	Format  string
+	Type    string
+	Discard bool
+	Input   string
+}
+
+func TestHostilePrefixesTotal(t *testing.T) {
+	type frame struct {
+		format, typ string
+		discard     bool
+		open, close string
+	}
+	frames := []frame{
+		{"json", "goproto.proto.test.TestAllTypes", false, `{"optional_string":`, `}`},
+		{"json", "goproto.proto.test.TestAllTypes", false, `{"optional_int32":`, `}`},
+		{"json", "goproto.proto.test.TestAllTypes", true, `{"zz":[`, `]}`},
+		{"json", "goproto.proto.test.TestAllTypes", false, `{`, `:1}`},
+		{"json", "google.protobuf.Value", false, ``, ``},
+		{"json", "google.protobuf.Any", false, `{"@type":`, `}`},
+		{"json", "google.protobuf.Any", true, `{"@type":"type.googleapis.com/google.protobuf.Duration","value":`, `}`},
+		{"text", "goproto.proto.test.TestAllTypes", false, `optional_string:`, ``},
+		{"text", "goproto.proto.test.TestAllTypes", false, `optional_int32:`, ``},
+		{"text", "goproto.proto.test.TestAllTypes", false, `optional_float:`, ``},
+		{"text", "goproto.proto.test.TestAllTypes", false, `optional_nested_enum:`, ``},
+		{"text", "goproto.proto.test.TestAllTypes", false, `repeated_int32:[1,`, `]`},
+		{"text", "goproto.proto.test.TestAllTypes", false, `optional_nested_message{a:`, `}`},
+		{"text", "goproto.proto.test.TestAllTypes", true, `zz:`, ``},
+		{"text", "goproto.proto.test.TestAllTypes", true, `zz{y:[`, `]}`},
+		{"text", "goproto.proto.test.TestAllTypes", false, ``, `:1`},
+		{"text", "goproto.proto.test.TestAllExtensions", false, ``, ``},
+		{"text", "google.protobuf.Any", false, ``, `{}`},
+		{"text", "google.protobuf.Any", false, `type_url:`, ``},
+	}
+	pools := func(format string) []string {
+		var out []string
+		if format == "json" {
+			out = append(out, jdoc.BadNumbers...)
+			out = append(out, jdoc.BadStrings...)
+			out = append(out, jdoc.BadLiterals...)
+			out = append(out, `"𝄞"`, `"éx"`, "1.5e+10", "-0.0E-2", `"@type"`)
+		} else {
+			out = append(out, textPools.Numbers...)
+			out = append(out, textPools.Strings...)
+			out = append(out, textPools.Literals...)
+			out = append(out, textPools.Structure...)
+			out = append(out, `"\U0001f600é\x41\101"`, `'𝄞'`, "-0x7fffffff", "- #c\n 1.5e+10f", "[goproto.proto.test.optional_int32]", "[type.googleapis.com/google.protobuf.Empty]", "[ type.googleapis.com / google.protobuf.Empty ]", "[a.b/c.d]{", "-inf", "- inf")
+		}
+		return out
+	}
+	pbt.Enumerate(t, "hostile-prefixes-total",
+		"exhaustive: every non-empty prefix of every hostile/boundary token (numbers, strings with partial escapes, literals, structure; JSON and text pools), placed in fixed frames (string/int/float/enum field, list element, nested message, unknown value under DiscardUnknown, field-name position, Any) and left unterminated at end of input or closed; oracle: no panic",
+		true,
+		func(yield func(prefixCase, bool) bool) {
+			for _, f := range frames {
+				for _, k := range pools(f.format) {
+					for n := 1; n <= len(k); n++ {
+						if !yield(prefixCase{f.format, f.typ, f.discard, f.open + k[:n]}, n > 2) {
+							return
+						}
+						if !yield(prefixCase{f.format, f.typ, f.discard, f.open + k[:n] + f.close}, n > 2) {
+							return
+						}
+					}
+				}
+			}
+		},
+		func(c prefixCase) error {
+			_ = unmarshal(c.Format, c.Type, []byte(c.Input), c.Discard, true, 0)
+			return nil
+		})
+}
